@@ -177,6 +177,10 @@ def evaluate(outdir):
     with concurrent.futures.ThreadPoolExecutor(max_workers=min(16, max(1, len(shards)))) as ex:
         results = list(ex.map(coqc_eval, shards))
     for k, (rc, out, dt) in enumerate(results):
+        if rc in (-9, 137, -6, 134) or (rc != 0 and "Out of memory" in out):
+            # the evaluator was killed (memory pressure from whatever else runs on
+            # the machine): evaluate this shard once more, alone
+            rc, out, dt = coqc_eval(shards[k])
         fl = parse_failing(out) if rc == 0 else None
         if fl is None:
             errors.append("shard %d: coqc rc=%d: %s" % (k, rc, out[-1500:]))
@@ -193,6 +197,31 @@ def model_text(pid, stats, term, work, tag):
     open(f, "w").write("%s\nDefinition X := Eval vm_compute in (%s %s).\nPrint X.\n" % (stats["imports"], stats["model_fn"], term))
     rc, out, _ = coqc_eval(f)
     return out[:6000]
+
+
+# ---------------------------------------------------------------- source fingerprint
+
+def source_fingerprint(repo):
+    """sha256 over the repository's non-test Go sources (and go.mod), by relative path"""
+    import hashlib
+    h = hashlib.sha256()
+    files = []
+    for root, dirs, names in os.walk(repo):
+        dirs[:] = sorted(d for d in dirs if d not in (".git", "vendor", "testdata"))
+        for n in sorted(names):
+            if (n.endswith(".go") and not n.endswith("_test.go")) or n == "go.mod":
+                files.append(os.path.join(root, n))
+    for f in files:
+        h.update(os.path.relpath(f, repo).encode() + b"\0")
+        h.update(open(f, "rb").read() + b"\0")
+    return h.hexdigest()
+
+
+def pinned_fingerprint():
+    try:
+        return open(os.path.join(VERIF, "PINNED_SOURCE")).read().split()[0]
+    except (OSError, IndexError):
+        return None
 
 
 # ---------------------------------------------------------------- findings
@@ -281,6 +310,30 @@ def check(a, pid, tier, work, t0):
     if errors:
         print("\n".join(errors))
         die("model evaluation failed")
+    # The sources differ from the tree this development was last validated
+    # against (PINNED_SOURCE) and the first pass found nothing: the change is
+    # what is being judged, so two more passes with other seeds are run (more
+    # random tables, other schedules) before the property is reported as held.
+    fp, pinned = source_fingerprint(repo), pinned_fingerprint()
+    extra_passes = 0
+    if not a.replay and not failing and pinned is not None and fp != pinned and os.environ.get("VERIF_NO_ESCALATE") != "1":
+        base_seed = a.seed
+        for k in (1, 2):
+            od = os.path.join(work, "pass%d" % k)
+            rc, hlog = run_harness(binp, pid, od, base_seed + k, tier, extra)
+            if rc != 0:
+                print(hlog[-3000:])
+                die("harness failed (rc=%d)" % rc)
+            fl, errs, st = evaluate(od)
+            if errs:
+                print("\n".join(errs))
+                die("model evaluation failed")
+            extra_passes += 1
+            st["evaluations_before"] = stats["evaluations"] + stats.get("evaluations_before", 0)
+            failing, stats, outdir = fl, st, od
+            a.seed = base_seed + k
+            if failing:
+                break
     cases = json.load(open(os.path.join(outdir, "cases.json")))
     mach = [(i, c) for i, c in failing if c & 4]
     if mach:
@@ -448,6 +501,8 @@ def check(a, pid, tier, work, t0):
             "correspondence_mismatches": len([1 for i, c in failing if c & 1]),
             "oracle_rejections": len(ok_fail),
             "widened_search_cases": searched,
+            "source_fingerprint": fp, "source_matches_pinned": fp == pinned,
+            "extra_passes_because_source_changed": extra_passes, "evaluations_in_earlier_passes": stats.get("evaluations_before", 0),
             "samples": samples,
             "known_findings_seen": {k: {"what": v[0], "cases": v[1]} for k, v in known_hits.items()},
             "coqchk": coqchk if coqchk is not None else "thorough tier only",
